@@ -925,6 +925,11 @@ fn prepare_bins(parent: &Path) -> Result<PathBuf, String> {
         let _ = fs::copy(bins.join(b), d.join(b));
         let _ = fs::set_permissions(d.join(b), fs::Permissions::from_mode(0o755));
     }
+    // the LD_PRELOAD shim, when it could be built
+    if bins.join(crate::crosscheck::SHIM).exists() {
+        let _ = fs::copy(bins.join(crate::crosscheck::SHIM), d.join(crate::crosscheck::SHIM));
+        let _ = fs::set_permissions(d.join(crate::crosscheck::SHIM), fs::Permissions::from_mode(0o755));
+    }
     Ok(d)
 }
 
@@ -944,6 +949,7 @@ pub fn crosscheck_main<P: Property>(n: u64) -> i32 {
             return 2;
         }
     };
+    let shim_there = bins.join(crate::crosscheck::SHIM).exists();
     let start = Instant::now();
     let (tried, compared, disagreements, differences) = with_ctx::<P, _>(parent.clone(), "xc".into(), true, move |ctx| {
         let mut tried = 0u64;
@@ -1026,6 +1032,7 @@ pub fn crosscheck_main<P: Property>(n: u64) -> i32 {
             v["coverage"]["binary_crosscheck"] = json!({
                 "what": "the same scenario through the in-process seams and through the find/xargs executables built from /repo with the hooks feature off (real pipes, real simchild children; xargs' standard input is in turn a pipe, a regular file, a regular file whose offset is past bytes consumed earlier): exit status, child argv and cwd, output bytes must be equal (a difference is a violation), presence of diagnostics too (a difference is a harness error)",
                 "scenarios_tried": tried, "compared": compared, "disagreements": disagreements.len(), "differences": differences.len(), "wall_s": wall,
+                "syscall_shim": if shim_there { "a third of the executable runs happen under an LD_PRELOAD shim (sim/shim/fusim_shim.c) that makes their own write(1) and read(0) return short counts and EINTR by a plan derived from the scenario" } else { "not available (no C compiler): the executables met only what real pipes and files do" },
             });
             let _ = fs::write(&evp, serde_json::to_string_pretty(&v).unwrap());
         }
